@@ -23,7 +23,11 @@ Record tlscfg := { tls_server_name : str; tls_skip_verify : bool }.
 
 Record transport := {
   t_rht : Z; t_idle : Z; t_maxidle : Z; t_dial : Z; t_keepalive : Z;
-  t_tls : option tlscfg
+  t_tls : option tlscfg;
+  (* number of OTHER connection-limit fields of http.Transport that are set (MaxIdleConns,
+     MaxConnsPerHost, TLSHandshakeTimeout, ExpectContinueTimeout, DisableKeepAlives, ...):
+     NewTransport sets none, so no limit applies that the operator did not configure *)
+  t_other : Z
 }.
 
 (* package state: var cfg *config.Config = &config.Config{} *)
@@ -37,7 +41,7 @@ Definition set_config_shadowed (s : state) (c : limits) : state := s.
 
 Definition new_transport (s : state) (tls : option tlscfg) : transport :=
   {| t_rht := l_rht s; t_idle := l_idle s; t_maxidle := l_maxconn s;
-     t_dial := l_dial s; t_keepalive := l_keepalive s; t_tls := tls |}.
+     t_dial := l_dial s; t_keepalive := l_keepalive s; t_tls := tls; t_other := 0 |}.
 
 Inductive op := SetConfig (c : limits) | NewTransport (tls : option tlscfg).
 
